@@ -100,6 +100,11 @@ finish(uint32_t *dp, uint32_t *rp, const unsigned char *ip, int yielded)
 	if (e_dpi != r_dpi || e_rpi != r_rpi || e_co != yielded || ip != p_ip) ok = 0;
 	for (u = 0; u < sizeof *c; u ++) {
 		if (u >= cpu_off && u < cpu_off + sizeof STK(c)->cpu) continue;
+#ifdef T0V_IGN_OP
+		/* documented indeterminate value: the native copies a field of a local structure that the
+		   callee may leave unset (call-policy-handler: choices.algo_id -> sign_hash_id) */
+		if (p_op == T0V_IGN_OP && u >= T0V_IGN_OFF && u < T0V_IGN_OFF + T0V_IGN_LEN) continue;
+#endif
 		if (((unsigned char *)c)[u] != s_real[u]) { ok = 0; if (verbose_bad > 0) fprintf(stderr, "  op %u: context byte %lu differs (real %02x, extracted %02x)\n", p_op, (unsigned long)u, s_real[u], ((unsigned char *)c)[u]); break; }
 	}
 	for (i = 0; i < nreg && ok; i ++) if (memcmp(reg[i].p, reg[i].s_real, reg[i].n) != 0) { ok = 0; if (verbose_bad > 0) fprintf(stderr, "  op %u: external region %d differs\n", p_op, i); }
@@ -132,13 +137,22 @@ T0V_HOOK(void *t0ctx, uint32_t *dp, uint32_t *rp, const unsigned char *ip)
 		for (i = 0; i < nreg; i ++) memcpy(reg[i].s_pre, reg[i].p, reg[i].n);
 	}
 }
-/* to be called by the driver after every return of the real *_run() */
-static void
-t0v_after_run(CTXT *c)
+/* called by the hooked interpreter right after it saved its registers on exit */
+#define T0V_EXIT_(h) h ## _exit
+#define T0V_EXIT__(h) T0V_EXIT_(h)
+void
+T0V_EXIT__(T0V_HOOK)(void *t0ctx)
 {
+	CTXT *c = (CTXT *)(void *)((unsigned char *)t0ctx - ((unsigned char *)&STK((CTXT *)0)->cpu - (unsigned char *)0));
 	if (pending) {
 		finish(STK(c)->cpu.dp, STK(c)->cpu.rp, STK(c)->cpu.ip, 1);
 	}
+}
+/* kept for the drivers: nothing left to do after a return of the real *_run() */
+static void
+t0v_after_run(CTXT *c)
+{
+	(void)c;
 }
 
 /* ------------------------------------------------------------------ helpers */
